@@ -267,12 +267,28 @@ func (c tnameCase) Run() string {
 		tr := namer.NewDefaultImportTracker()
 		ns := namer.NameSystems{"raw": namer.NewRawNamer(c.Self, tr)}
 		names := make([]string, len(c.Refs))
+		sn := make([]snippet.Snippet, len(c.Refs))
 		for i, r := range c.Refs {
 			b := bytes.NewBuffer(nil)
-			gengo.NewSnippetWriter(b, ns).Render(snippet.ID(r.String()))
+			sn[i] = snippet.ID(r.String())
+			gengo.NewSnippetWriter(b, ns).Render(sn[i])
 			names[i] = hx(b.String())
 		}
-		return "ok " + strings.Join(names, ",") + " imports " + showImports(tr.Imports())
+		first := "ok " + strings.Join(names, ",") + " imports " + showImports(tr.Imports())
+		// the very same snippet objects rendered into a second file of the same package (a writer, a namer and an import
+		// table of its own): a snippet a generator keeps renders there as it did here, and registers there what it names
+		tr2 := namer.NewDefaultImportTracker()
+		ns2 := namer.NameSystems{"raw": namer.NewRawNamer(c.Self, tr2)}
+		names2 := make([]string, len(c.Refs))
+		for i := range c.Refs {
+			b := bytes.NewBuffer(nil)
+			gengo.NewSnippetWriter(b, ns2).Render(sn[i])
+			names2[i] = hx(b.String())
+		}
+		if second := "ok " + strings.Join(names2, ",") + " imports " + showImports(tr2.Imports()); second != first {
+			return second + " SECOND-FILE-DIFFERS"
+		}
+		return first
 	})
 }
 
@@ -293,6 +309,9 @@ func parseImports(s string) map[string]string {
 func (c tnameCase) Oracle(out string) string {
 	if out == "panic" {
 		return "rendering a well-formed reference through the naming system panicked"
+	}
+	if strings.HasSuffix(out, " SECOND-FILE-DIFFERS") {
+		return "the same ID snippets rendered into a second file (fresh writer, namer and import table) came out differently, or registered other imports, than in the first: " + clip(strings.TrimSuffix(out, " SECOND-FILE-DIFFERS"), 300)
 	}
 	body := strings.TrimPrefix(out, "ok ")
 	parts := strings.SplitN(body, " imports ", 2)
@@ -497,7 +516,7 @@ func init() {
 				}
 				return c
 			},
-			Rule: "sequences of 1–4 references rendered with snippet.ID(string) through a real SnippetWriter over one import tracker; compared: every rendered name and the final import table; oracle: relabelled tree under the final table, registered set = foreign paths of the trees",
+			Rule: "sequences of 1–4 references rendered with snippet.ID(string) through a real SnippetWriter over one import tracker — and the same snippet objects once more into a second file (fresh writer, namer and tracker), which must come out the same; compared: every rendered name and the final import table; oracle: relabelled tree under the final table, registered set = foreign paths of the trees",
 		},
 	}})
 }
